@@ -168,3 +168,42 @@ def guarded(body, bi, a, b, dom=None):
                 continue
             return True, "%s %s at line %s" % (op, "true" if truth else "false", body.blocks[d].get("l"))
     return False, None
+
+
+def inventory(ctx, facts, cg, seen, rule, table, floor, what="parse paths"):
+    """every overflow-checked unsigned `a - b` in the reachable bodies `seen` is discharged by a dominating guard or listed in
+    `table` {fn_key: (count, reason)}"""
+    from .common import fn_key, where, short
+    nsub = nauto = 0
+    unguarded = {}
+    for k, (b, pk, info) in sorted(seen.items()):
+        sites = sub_sites(b)
+        if not sites:
+            continue
+        dom = cfg.Dom(b)
+        for bi, line, a, bb, ty in sites:
+            if ty not in UNSIGNED:
+                continue
+            nsub += 1
+            g, why = guarded(b, bi, a, bb, dom)
+            if g:
+                nauto += 1
+                ctx.ok(rule, "%s|sub@guarded" % fn_key(b, facts), "a - b is dominated by a guard implying a >= b (%s)" % why,
+                       where(b, line))
+            else:
+                unguarded.setdefault(fn_key(b, facts), []).append((b, line))
+    for key, sites in sorted(unguarded.items()):
+        allowed = table.get(key)
+        b, line = sites[0]
+        if allowed and len(sites) <= allowed[0]:
+            ctx.ok(rule, key + "|sub", "%d reviewed subtraction(s) without a syntactic guard: %s" % (len(sites), allowed[1]),
+                   where(b, line))
+        else:
+            ctx.bad(rule, key + "|sub", "%d unsigned subtraction(s) (lines %s) on the %s without a dominating guard a >= b%s; an "
+                    "underflow panics in debug builds and wraps to a huge length/index in release builds; call chain: %s"
+                    % (len(sites), [l for _b, l in sites], what,
+                       " (%d were reviewed)" % allowed[0] if allowed else " and not in the reviewed table",
+                       " -> ".join(short(x) for x in cg.chain(seen, b)[-5:])), where(b, sites[-1][1]))
+    ctx.counters["unsigned_subtractions"] = nsub
+    ctx.counters["subtractions_discharged_by_guard"] = nauto
+    ctx.require_floor(rule, "unsigned_subtractions", nsub, floor)
